@@ -64,7 +64,7 @@ def check(ctx: Ctx):
     ech, handlers = build_edge_case_handler(prog, metrics)
     rcls = prog.cls("panoptica_result:PanopticaResult")
     init = rcls.lookup("__init__")
-    calc = rcls.lookup("_calc_global_bin_metric")
+    calc = prog.method(rcls, "_calc_global_bin_metric")
     if calc is None:
         raise AnchorMissing("PanopticaResult._calc_global_bin_metric")
     rows = 0
